@@ -647,6 +647,46 @@ theorem newRing_length_le {α : Type} [RingArith α] (hashOf : Nat → Nat → N
     (RingArith.ofNat 0) (RingArith.ofNat 0) 0
   simpa using this
 
+/-! ### the balancer keeps its ring in sync with the current endpoints and bounds -/
+
+/-- the ring is the one `F` (= newRing) builds for the state's endpoints and bounds -/
+def BalInv (F : List Endpoint → ℕ → ℕ → List RingEntry) (s : BalState) : Prop :=
+  ∀ a b, s.cfg = some (a, b) → s.eps ≠ [] → s.ring = F s.eps a b
+
+theorem sortByKey_ne_nil (l : List Endpoint) (h : l ≠ []) : sortByKey l ≠ [] := by
+  intro hc
+  have := (sortByKey_perm l).length_eq
+  rw [hc] at this
+  exact h (List.length_eq_zero_iff.mp this.symm)
+
+theorem balUpdate_inv (F : List Endpoint → ℕ → ℕ → List RingEntry)
+    (hF : ∀ e1 e2 a b, sortByKey e1 = sortByKey e2 → F e1 a b = F e2 a b)
+    (s : BalState) (hs : BalInv F s) (eps : List Endpoint) (hne : eps ≠ []) (a b : ℕ) :
+    (balUpdate s eps a b (F eps a b)).cfg = some (a, b) ∧ (balUpdate s eps a b (F eps a b)).eps = eps ∧
+    (balUpdate s eps a b (F eps a b)).ring = F eps a b := by
+  unfold balUpdate
+  have hemp : eps.isEmpty = false := by cases eps with
+    | nil => exact absurd rfl hne
+    | cons _ _ => rfl
+  simp only [hemp, Bool.not_false, Bool.true_and]
+  cases hc : s.cfg with
+  | none => simp
+  | some ab =>
+    obtain ⟨a', b'⟩ := ab
+    simp only
+    by_cases hreg : (decide (sortByKey s.eps ≠ sortByKey eps) || (a' != a || b' != b)) = true
+    · rw [if_pos hreg]; exact ⟨rfl, rfl, rfl⟩
+    · rw [if_neg hreg]
+      refine ⟨rfl, rfl, ?_⟩
+      simp only [Bool.or_eq_true, decide_eq_true_eq, bne_iff_ne, ne_eq, not_or, not_not] at hreg
+      obtain ⟨hsame, rfl, rfl⟩ := hreg
+      have hsne : s.eps ≠ [] := by
+        intro he
+        rw [he] at hsame
+        exact sortByKey_ne_nil eps hne hsame.symm
+      rw [hs a' b' hc hsne]
+      exact hF _ _ _ _ hsame
+
 end GrpcProofs.Lemmas.Ring
 
 
